@@ -94,6 +94,7 @@ def correspondence(rep, rng, tier):
             sec['distinct_nontrivial'] += 1
             rep.add_failure('host:' + tname, 'code %d: on this host %r, with Darwin tables %r' % (code, a, b),
                             {'section': 'host-vs-darwin', 'case': c, 'table': tname, 'code': code})
+    darwin_names(rep)
     scramble_search(rep, rng, tier)
     if rep.broken or tier == 'thorough':       # the theorems rule a new dependence out; search only when they no longer check
         targeted_search(rep, diffs, tier, ht)
@@ -135,6 +136,38 @@ def correspondence(rep, rng, tier):
         else:
             rep.add_failure('host:' + reason, 'decoder %s: %r on this host, %r with Darwin tables' % (n, a, b),
                             {'section': 'table-swap', 'case': c, 'table': reason})
+
+
+def darwin_names(rep):
+    """With Darwin's tables in place the names shown ARE Darwin's: every code of the reference tables, rendered by a decoder
+    that consults the table in a fresh interpreter with Darwin's tables, shows exactly the reference name (an alias table, a
+    fallback or a "fix-up" keyed on another platform's numbering shows here; the host comparison cannot see it when this
+    host gives both numbers one name)."""
+    sec = rep.section('darwin-names')
+    sec['rule'] = ('every code of the Darwin reference tables (errno, signals, address families, socket kinds) in a decoder that '
+                   'consults the table (read / pipe results, sigaction, socket), rendered in a fresh interpreter with Darwin\'s '
+                   'tables: the text must show the reference name of that code')
+    items = []
+    for code, nm in sorted(DARWIN_ERRNO.items()):
+        items.append(('errno', code, 'errno: %s(%d)' % (nm, code), demo_case('BSC_read', end=[code, 0, 0, 0])))
+        items.append(('errno', code, 'errno: %s(%d)' % (nm, code), demo_case('BSC_pipe', end=[code, 3, 4, 0])))
+    for code, nm in sorted(DARWIN_SIGNALS.items()):
+        items.append(('signals', code, nm, demo_case('BSC_sigaction', start=[code, 4, 5, 6])))
+    for code, nm in sorted(DARWIN_AF.items()):
+        items.append(('addressFamily', code, nm, demo_case('BSC_socket', start=[code, 1, 0, 0])))
+    for code, nm in sorted(DARWIN_SK.items()):
+        items.append(('socketKind', code, nm, demo_case('BSC_socket', start=[2, code, 0, 0])))
+    B = darwin_texts([it[3] for it in items])
+    seen = set()
+    for (tname, code, want, c), b in zip(items, B):
+        sec['cases'] += 1
+        if want in b:
+            sec['distinct_nontrivial'] += 1
+        elif (tname, c['name']) not in seen:
+            seen.add((tname, c['name']))
+            rep.add_failure('host:darwin-name-not-shown:' + tname,
+                            'with Darwin\'s tables installed, %s on code %d renders %r, which does not show Darwin\'s name %r'
+                            % (c['name'], code, b, want), {'section': 'darwin-names', 'case': c, 'want': want})
 
 
 def scramble_search(rep, rng, tier):
@@ -333,6 +366,13 @@ def replay(path):
             print(f'VIOLATION property=C18 replay={path}')
         return 1 if bad else 0
     c = r['replay']['case']
+    if r['replay'].get('section') == 'darwin-names':
+        b = darwin_texts([c])[0]
+        print('with Darwin tables:', b, '   expected to show:', r['replay']['want'])
+        if r['replay']['want'] not in b:
+            print(f'VIOLATION property=C18 replay={path}')
+            return 1
+        return 0
     if r['replay'].get('section') == 'host-scramble':
         from .. import neighbours
         a, b = run(c), neighbours.texts([c], 'scrambled')[0]
